@@ -63,6 +63,13 @@ fn kexpr(e: &Expr, param: &str) -> String {
             _ => format!("(.unknown {})", lean::s(&toks(e))),
         },
         Expr::Cast(c) => format!("(.cast {} {})", kexpr(&c.expr, param), ty_of(&toks(&c.ty))),
+        // `usize::from(e)` (and the like): `From` between integer types exists only where it is lossless,
+        // i.e. it is the widening cast
+        Expr::Call(c) if c.args.len() == 1 && matches!(&*c.func, Expr::Path(p) if p.path.segments.len() == 2 && p.path.segments[1].ident == "from"
+            && matches!(p.path.segments[0].ident.to_string().as_str(), "usize" | "u64" | "u32" | "u16" | "u128")) => {
+            let Expr::Path(p) = &*c.func else { unreachable!() };
+            format!("(.cast {} {})", kexpr(&c.args[0], param), ty_of(&p.path.segments[0].ident.to_string()))
+        }
         Expr::Binary(b) => match b.op {
             syn::BinOp::Add(_) => format!("(.add {} {})", kexpr(&b.left, param), kexpr(&b.right, param)),
             syn::BinOp::Sub(_) => format!("(.sub {} {})", kexpr(&b.left, param), kexpr(&b.right, param)),
